@@ -151,6 +151,11 @@ def run(cx):
     # sender requests once nothing is left to resend, whether or not more packets wait behind a full window
     from props.C02 import inst_resync_guard
     inst_resync_guard(cx, "C20.l")
+    from props.C11 import sync_reply_mechanism
+    sync_reply_mechanism(cx, "C20.m", "C20.n")
+    # a full frame window that was lost reopens only if the receiver accepts a resynchronisation by exactly its size
+    from props.C11 import resync_acceptance
+    resync_acceptance(cx, "C20.o")
     from props.C01 import inst_id_arith
     inst_id_arith(cx, "C20.k")
     with cx.instance("C20.c", "T7 SHAPE", "send_buffer_size forwards PacketSender.total_size under Active and returns 0 otherwise", floor=4) as inst:
